@@ -197,6 +197,10 @@ func verifMatch(ev string, req *MatchRequest, merger *Merger, extra ...interface
 	if req != nil {
 		m["q"] = req.pattern.AsString()
 		m["count"] = CountItems(req.chunks)
+		m["first"] = 0
+		if len(req.chunks) > 0 && req.chunks[0].count > 0 {
+			m["first"] = int(req.chunks[0].items[0].Index())
+		}
 		m["final"] = req.final
 		m["sort"] = req.sort
 		m["rev"] = []int{req.revision.major, req.revision.minor}
